@@ -43,6 +43,14 @@ def gen_tables(rng, tier, max_h=40, max_p=80):
             'edge': rng.choice([None] * 6 + [('LRG', 0), ('ELG', 1), ('QSO', -1)]),
         })
     parts.sort(key=lambda p: p['hidx'])
+    if rng.random() < 0.3 and parts:
+        # the particle table need not follow the host order (staging sorts hosts by id and leaves the particles as
+        # they were read): host groups in a seeded order, or no grouping at all
+        if rng.random() < 0.6:
+            keys = {h: rng.random() for h in {p['hidx'] for p in parts}}
+            parts.sort(key=lambda p: keys[p['hidx']])
+        else:
+            rng.shuffle(parts)
 
     def tr(name):
         d = {'logM_cut': rng.uniform(12.0, 13.6), 'logM1': rng.uniform(12.8, 14.2), 'sigma': rng.uniform(0.15, 0.9),
